@@ -34,11 +34,11 @@ type World struct {
 	MemTransform func(*memswarm.Message) bool
 	ChanOpenOn   func(ci, node int) bool
 
-	Led       *Ledger
-	askLed    *askLedger
-	hosts     []netip.AddrPort
+	Led    *Ledger
+	askLed *askLedger
+	hosts  []netip.AddrPort
 	// AddrHook sees every message handed to a callback (C16)
-	AddrHook func(ep Endpoint, m Msg)
+	AddrHook  func(ep Endpoint, m Msg)
 	AskFaults bool // negative handler returns and too-small buffers are part of the workload
 
 	// run phases: the root task flips these; OnIdle reads them
@@ -204,7 +204,9 @@ func (w *World) opEnd()   { w.activeOps-- }
 
 func (w *World) step() int { return w.Sim.Step }
 
-func (w *World) UsesSim() bool { return strings.HasSuffix(w.Spec, "sim") || strings.Contains(w.Spec, "+") }
+func (w *World) UsesSim() bool {
+	return strings.HasSuffix(w.Spec, "sim") || strings.Contains(w.Spec, "+")
+}
 func (w *World) UsesMem() bool { return strings.Contains(w.Spec, "mem") }
 func (w *World) HasKE() bool   { return strings.Contains(w.Spec, "p2pke") }
 
